@@ -56,6 +56,11 @@ P = {
          "encoder/decoder siblings agree on layout constants (hash slice bounds, complementary representative masks on the same byte, 32-byte header split, prefix widths); randomised obfuscators refill their ephemeral secret from crypto/rand on every path; names sent on the wire come from validating constructors. "
          "The round trips themselves for every payload/key and the Noise exchange are value-level and not decided.",
          "4/C15"),
+ "C19": (True, "error-edge reachability (errors propagate, never skip), effect reachability over the reload path, guard dominance of the swaps, contradiction rule for optional fields and integer-division scan over the printers (go/ssa)",
+         "Decides for every accepted configuration: in the list loader every parse failure leads, on its error edge, only to a non-nil error return (no entry is dropped silently) and ParseConfig returns a configuration only if the lists parsed; nothing reachable from a reload (ParseConfig, OnReload, selector and GeoIP loaders) calls a panicking or exiting API; "
+         "OnReload is called only when the new configuration loaded and replaces the phantom selector only when the new one loaded; for every statistics module registered in main (computed), code reachable from PrintAndReset has no integer division by a run-time value and every call through an optional interface field (nil-checked elsewhere) is dominated by a nil test of that same field. "
+         "The full configuration space, TOML decoding and the field-wise copy in OnReload are not decided.",
+         "4/C19"),
  "C20": (True, "who-may-write over file-creating APIs, guard dominance and must-pass ordering (marshal -> write temp -> rename), value-flow of the rollback, lockset (go/ssa)",
          "Decides for every crash point and write fault: the only file the client library ever creates is a freshly (randomly) named temporary in the ClientConf's own directory; the final name is only ever the destination of a rename, reached only after Marshal and the write both succeeded, and the renamed file is the one written; "
          "a failed SetClientConf restores the pointer loaded before the assignment; every store into the in-memory config is under the write lock and followed by a save on every path. With POSIX rename atomicity (assumed) no crash point can leave a truncated or mixed file. Durability across power loss is not in the statement.",
